@@ -51,13 +51,28 @@ def run(ctx):
     prop_bad = []
     scases = []
     n_fields = 0
+    def snapshot(cls):
+        return [(f.name, repr(f.type), repr(f.default), sorted((k, repr(v)) for k, v in f.metadata.items())) for f in dataclasses.fields(cls)] \
+            + [("__annotations__", repr(sorted((k, repr(v)) for k, v in cls.__annotations__.items())))]
+
     for ci in range(n_schema):
         cls = classes[ci]
+        before = snapshot(cls)
         try:
-            entity_reader(cls); entity_writer(cls)
+            # "a reader and a writer can be derived from this description alone": deriving them (writer first for every other
+            # class, nullable flavours too) must leave the description exactly as it was
+            if ci % 2:
+                entity_writer(cls); entity_reader(cls)
+            else:
+                entity_reader(cls); entity_writer(cls)
             entity_reader(cls, True); entity_writer(cls, True)
         except Exception as e:  # noqa
             prop_bad.append({"class": f"{cls.__module__}:{cls.__qualname__}", "what": f"no reader/writer can be derived: {type(e).__name__}: {e}"[:200]})
+        after = snapshot(cls)
+        if after != before:
+            diff = [(b, a) for b, a in zip(before, after) if a != b][:2]
+            prop_bad.append({"class": f"{cls.__module__}:{cls.__qualname__}", "what": "deriving a reader/writer changed the class's self-description",
+                             "before_after": [[str(b)[:300], str(a)[:300]] for b, a in diff]})
         for fi, f in enumerate(dataclasses.fields(cls)):
             n_fields += 1
             tagged = "tag" in f.metadata
